@@ -89,6 +89,22 @@ func (e *emitter) add(c Case) {
 		term = recvTerm(nm, c.QT, seen, o)
 		e.meta.Hist("recv:" + o.Res)
 		nontrivial = len(o.Evs) > 1
+	case "stream":
+		if len(c.Targets) == 0 {
+			c.Targets = []string{"t1", "t2"}
+		}
+		seen, items := runStream(c.Targets, c.Ops)
+		c.Ops, c.Obs = seen, items
+		term = streamTerm(nm, items)
+		for _, it := range items {
+			e.meta.Hist("stream:" + it.Res)
+			if len(it.N.Del) > 0 {
+				nontrivial = true
+			}
+			if it.Gone {
+				e.meta.Hist("stream:target-gone")
+			}
+		}
 	case "mgr":
 		seen, obs := runMgr(c.Ops, c.NoEvent)
 		c.Ops, c.Obs = seen, obs
@@ -175,6 +191,8 @@ func main() {
 	metaOptsIngest(e.add)
 	longFamilies(e.add)
 	extremesIngest(e.add)
+	streamDeletes(e.add)
+	extremeResps(e.add)
 	gridSub(e.add, o.Thorough())
 	gridCli(e.add)
 
@@ -199,6 +217,19 @@ func main() {
 	g = &gen{r: r.Fork()}
 	for i := 0; i < 150*scale; i++ {
 		e.add(g.emptyNameIngest())
+	}
+	// the same random / look-alike message sequences, watched from the sender side
+	g = &gen{r: r.Fork()}
+	for i := 0; i < 250*scale; i++ {
+		c := g.randomIngest()
+		if i%2 == 1 {
+			c = g.lookalikeIngest()
+		}
+		c.Family, c.Kind, c.SrvName, c.Latency, c.NoEvent = "stream-random", "stream", false, false, false
+		if g.r.Chance(1, 3) {
+			c.Ops = append(c.Ops, Op{K: []string{"remove", "reset"}[g.r.Intn(2)], T: "t1"})
+		}
+		e.add(c)
 	}
 	g = &gen{r: r.Fork()}
 	for i := 0; i < 300*scale; i++ {
